@@ -178,4 +178,183 @@ theorem permList_id {α : Type} (l : List α) (d : α) : permList (List.range l.
   · simp [hi, List.getD_eq_getElem?_getD]
   · simp [hi]
 
+/-! ## under `grOrderOk` the tag order is the identity -/
+
+/-- the candidates a downward-closed predicate selects are an initial segment -/
+theorem filter_downclosed (T : Nat) (r : Nat → Bool) (h : ∀ t t', t < T → t' < t → r t = true → r t' = true) :
+    ∃ c, c ≤ T ∧ (List.range T).filter r = List.range c ∧ ∀ t, t < T → (r t = true ↔ t < c) := by
+  induction T with
+  | zero => exact ⟨0, Nat.le_refl _, rfl, fun t ht => by omega⟩
+  | succ T ih =>
+    obtain ⟨c, hc, hf, hiff⟩ := ih (fun t t' ht ht' hr => h t t' (by omega) ht' hr)
+    rw [List.range_succ, List.filter_append]
+    cases hT : r T with
+    | true =>
+      have hall : ∀ t, t < T → r t = true := fun t ht => h T t (by omega) ht hT
+      have hcT : c = T := by
+        by_cases e : c < T
+        · have := (hiff c e).mp (hall c e); omega
+        · omega
+      subst hcT
+      refine ⟨c + 1, Nat.le_refl _, ?_, fun t ht => ?_⟩
+      · rw [hf]; simp [hT, List.range_succ]
+      · by_cases e : t = c
+        · subst e; simp [hT]
+        · have := hiff t (by omega); rw [this]; omega
+    | false =>
+      refine ⟨c, by omega, ?_, fun t ht => ?_⟩
+      · rw [hf]; simp [hT]
+      · by_cases e : t = T
+        · subst e; simp [hT]; omega
+        · exact hiff t (by omega)
+
+theorem regNew_as_filter (c : Nat) (p : Nat → Bool) : ∀ d,
+    regNew (c + d) (List.range c) p = (List.range (c + d)).filter (fun t => decide (t < c) || p t) := by
+  intro d
+  unfold regNew
+  induction d with
+  | zero =>
+    rw [Nat.add_zero, filter_range_none c _ (fun i hi => by simp [List.mem_range.mpr hi]), List.append_nil,
+      filter_range_all c _ (fun i hi => by simp [hi])]
+  | succ d ih =>
+    rw [show c + (d + 1) = (c + d) + 1 from rfl, List.range_succ, List.filter_append, List.filter_append, ← List.append_assoc, ih]
+    congr 1
+    have hn : ¬ (c + d < c) := by omega
+    have hm : ¬ (c + d ∈ List.range c) := fun hx => hn (List.mem_range.mp hx)
+    simp [List.filter_cons, hn]
+
+/-- one round of registration behind an initial segment, by a predicate that keeps the registered set downward closed -/
+theorem regNew_range (T c : Nat) (p : Nat → Bool) (hc : c ≤ T)
+    (h : ∀ t t', t < T → t' < t → (t < c ∨ p t = true) → (t' < c ∨ p t' = true)) :
+    ∃ c', c ≤ c' ∧ c' ≤ T ∧ regNew T (List.range c) p = List.range c' ∧ ∀ t, t < T → (t < c' ↔ (t < c ∨ p t = true)) := by
+  obtain ⟨d, rfl⟩ : ∃ d, T = c + d := ⟨T - c, by omega⟩
+  obtain ⟨c', h1, h2, h3⟩ := filter_downclosed (c + d) (fun t => decide (t < c) || p t) (fun t t' ht ht' hr => by
+    simp only [Bool.or_eq_true, decide_eq_true_eq] at hr ⊢
+    exact h t t' ht ht' hr)
+  refine ⟨c', ?_, h1, by rw [regNew_as_filter, h2], fun t ht => ?_⟩
+  · by_cases e : c ≤ c'
+    · exact e
+    · have hlt : c' < c + d := by omega
+      have := (h3 c' hlt).mp (by simp; omega)
+      omega
+  · have := h3 t ht
+    simp only [Bool.or_eq_true, decide_eq_true_eq] at this
+    exact this.symm
+
+def stoGrReg (m : Msa) (k : Nat) : List Nat := ((List.range k).map (fun i => grHas m i)).foldl (regNew m.gr.length) []
+
+theorem stoGrReg_succ (m : Msa) (k : Nat) : stoGrReg m (k + 1) = regNew m.gr.length (stoGrReg m k) (grHas m k) := by
+  unfold stoGrReg
+  rw [List.range_succ, List.map_append, List.foldl_append]
+  rfl
+
+/-- after the rows of `k` sequences the registered tags are an initial segment: those some sequence `< k` has -/
+theorem stoGrReg_range (m : Msa) (h : grOrderOk m) (k : Nat) (hk : k ≤ m.nseq) :
+    ∃ c, c ≤ m.gr.length ∧ stoGrReg m k = List.range c ∧ ∀ t, t < m.gr.length → (t < c ↔ ∃ i, i < k ∧ grHas m i t = true) := by
+  induction k with
+  | zero => exact ⟨0, Nat.zero_le _, rfl, fun t _ => ⟨fun h0 => by omega, fun ⟨i, hi, _⟩ => by omega⟩⟩
+  | succ k ih =>
+    obtain ⟨c, hc, he, hiff⟩ := ih (by omega)
+    obtain ⟨c', _, h2, h3, h4⟩ := regNew_range m.gr.length c (grHas m k) hc (fun t t' ht ht' hD => by
+      rcases hD with hD | hD
+      · exact Or.inl (by omega)
+      · obtain ⟨i', hi', hv⟩ := h t ht t' ht' k (by omega) hD
+        by_cases e : i' = k
+        · subst e; exact Or.inr hv
+        · exact Or.inl ((hiff t' (by omega)).mpr ⟨i', by omega, hv⟩))
+    refine ⟨c', h2, by rw [stoGrReg_succ, he, h3], fun t ht => ?_⟩
+    rw [h4 t ht, hiff t ht]
+    constructor
+    · rintro (⟨i, hi, hv⟩ | hv)
+      · exact ⟨i, by omega, hv⟩
+      · exact ⟨k, by omega, hv⟩
+    · rintro ⟨i, hi, hv⟩
+      by_cases e : i = k
+      · subst e; exact Or.inr hv
+      · exact Or.inl ⟨i, by omega, hv⟩
+
+/-- **under `grOrderOk` the reader's tag order is the order of `m.gr`** -/
+theorem stoGrOrder_id_of_grOrderOk (m : Msa) (h : grOrderOk m) : stoGrOrder m = List.range m.gr.length := by
+  obtain ⟨c, hc, he, _⟩ := stoGrReg_range m h m.nseq (Nat.le_refl _)
+  show regRest m.gr.length (stoGrReg m m.nseq) = _
+  rw [he]
+  obtain ⟨c', _, h2, h3, h4⟩ := regNew_range m.gr.length c (fun _ => true) hc (fun _ _ _ _ _ => Or.inr rfl)
+  unfold regRest
+  rw [h3]
+  have : c' = m.gr.length := by
+    by_cases e : c' < m.gr.length
+    · have := (h4 c' e).mpr (Or.inr rfl); omega
+    · omega
+  rw [this]
+
+/-! ## with both orders the identity, the rearranged alignment projects to the same alignment -/
+
+theorem permList_range {α : Type} (l : List α) (d : α) (n : Nat) (h : l.length = n) : permList (List.range n) l d = l := by
+  subst h; exact permList_id l d
+
+theorem permOpt_range (r : OptRows) (n : Nat) (h : ∀ l, r = some l → l.length = n) : permOpt (List.range n) r = r := by
+  cases r with
+  | none => rfl
+  | some l => simp [permOpt, permList_range l none n (h l rfl)]
+
+theorem permTagged_range (g : List (Bytes × List (Option Bytes))) (n : Nat) (h : ∀ t ∈ g, t.2.length = n) :
+    g.map (fun tv => (tv.1, permList (List.range n) tv.2 none)) = g := by
+  have : ∀ t ∈ g, (fun tv : Bytes × List (Option Bytes) => (tv.1, permList (List.range n) tv.2 none)) t = id t := by
+    intro t ht
+    simp [permList_range t.2 none n (h t ht)]
+  rw [List.map_congr_left this, List.map_id]
+
+theorem getD_permList_range {α : Type} (l : List α) (d : α) (n i : Nat) (hi : i < n) : (permList (List.range n) l d).getD i d = l.getD i d := by
+  unfold permList
+  simp [List.getD_eq_getElem?_getD, hi]
+
+/-- `stoProject` looks at the stored rows, and at everything but `digital kp aseq ax wgt` -/
+theorem stoProject_congr (cfg : Cfg) (a b : Msa) (hs : ∀ i, i < b.nseq → a.stored i = b.stored i)
+    (hrest : { a with digital := false, kp := 0, aseq := [], ax := [], wgt := [] }
+           = { b with digital := false, kp := 0, aseq := [], ax := [], wgt := [] }) :
+    stoProject cfg a = stoProject cfg b := by
+  have hn : a.names = b.names := by have := congrArg Msa.names hrest; exact this
+  have hnn : a.nseq = b.nseq := by unfold Msa.nseq; rw [hn]
+  have hmap : (List.range a.nseq).map a.stored = (List.range b.nseq).map b.stored := by
+    rw [hnn]; exact List.map_congr_left (fun i hi => hs i (List.mem_range.mp hi))
+  have hcut : cutsetOf a = cutsetOf b := by unfold cutsetOf; rw [show a.cutoff = b.cutoff from by have := congrArg Msa.cutoff hrest; exact this]
+  have hw : a.hasw = b.hasw := by have := congrArg Msa.hasw hrest; exact this
+  unfold stoProject
+  rw [hmap, hnn, hcut, hw]
+  cases a; cases b
+  simp only [Msa.mk.injEq] at hrest ⊢
+  simp_all
+
+/-- what `stoProject` keeps of the identity rearrangement is what it keeps of the alignment itself -/
+theorem stoProject_permute_id (cfg : Cfg) (m : Msa)
+    (hacc : ∀ l, m.sqacc = some l → l.length = m.nseq) (hdesc : ∀ l, m.sqdesc = some l → l.length = m.nseq)
+    (hss : ∀ l, m.ss = some l → l.length = m.nseq) (hsa : ∀ l, m.sa = some l → l.length = m.nseq)
+    (hpp : ∀ l, m.pp = some l → l.length = m.nseq) (hgs : ∀ t ∈ m.gs, t.2.length = m.nseq) (hgr : ∀ t ∈ m.gr, t.2.length = m.nseq) :
+    stoProject cfg (stoPermute (List.range m.nseq) (List.range m.gr.length) m) = stoProject cfg m := by
+  apply stoProject_congr
+  · intro i hi
+    unfold Msa.stored stoPermute
+    cases m.digital <;> simp only [Bool.false_eq_true, if_false, if_true] <;> exact getD_permList_range _ _ _ _ hi
+  · unfold stoPermute
+    rw [permList_range m.names [] m.nseq rfl, permList_range m.gr ([], []) m.gr.length rfl, permOpt_range _ _ hacc,
+      permOpt_range _ _ hdesc, permOpt_range _ _ hss, permOpt_range _ _ hsa, permOpt_range _ _ hpp, permTagged_range _ _ hgs,
+      permTagged_range _ _ hgr]
+
+/-- under the hypotheses of the proved round trip, `stoMention m` and `m` are the same alignment as far as `stoProject` goes -/
+theorem stoMention_project (abc : Option Abc) (cfg : Cfg) (enc : UInt8 → UInt8) (txt : Nat → Bytes) (m : Msa)
+    (W : StoWritable abc cfg enc txt m) : stoProject cfg (stoMention m) = stoProject cfg m := by
+  unfold stoMention
+  rw [stoSeqOrder_id_of_gsOrderOk m W.ann.gs_order, stoGrOrder_id_of_grOrderOk m W.ann.gr_order]
+  exact stoProject_permute_id cfg m
+    (fun l h => (W.ann.gs_per_ok 1 (by omega) l h).1) (fun l h => (W.ann.gs_per_ok 2 (by omega) l h).1)
+    (fun l h => (W.ann.per_ok 0 (by omega) l h).1) (fun l h => (W.ann.per_ok 1 (by omega) l h).1)
+    (fun l h => (W.ann.per_ok 2 (by omega) l h).1) (fun t ht => (W.ann.gs_tag_ok t ht).2) (fun t ht => (W.ann.gr_tag_ok t ht).2)
+
+/-- **the full statement holds wherever the proved round trip does** (there the permutation is the identity) -/
+theorem stoMentionRoundTrip_of_writable (pfam : Bool) (abc : Option Abc) (cfg : Cfg) (enc : UInt8 → UInt8) (txt : Nat → Bytes) (m : Msa)
+    (W : StoWritable abc cfg enc txt m) : StoMentionRoundTrip pfam abc cfg m := by
+  unfold StoMentionRoundTrip
+  rw [stoMention_project abc cfg enc txt m W]
+  exact stoRead_write pfam abc cfg enc txt m W
+
 end EaselModel.Msafile
